@@ -15,6 +15,7 @@ import CelloProofs.Lemmas.HashObj
 import CelloProofs.Lemmas.HashLift
 import CelloProofs.Lemmas.HashTable
 import CelloProofs.Lemmas.HashOrder
+import CelloProofs.Lemmas.HashTreeInv
 set_option linter.unusedSimpArgs false
 set_option linter.unusedVariables false
 
@@ -328,6 +329,29 @@ theorem C10_tree_history_independent (addr : Nat → Bytes) (st : Store) (kt vt 
   subst e
   exact ⟨by rw [valCmp_map (xs := xs) (ys := xs) rfl rfl]; exact mapCmp_self (scalarCmp_self addr) (scalarCmp_self addr) xs, rfl⟩
 
+/-- **every Tree reached by any history is well formed, so its copy is eq and hashes alike, and two histories that end in the
+    same set of entries give eq Trees with equal hashes**: histories are arbitrary sequences of `set` (insert or update) and
+    `rem` (a `rem` of an absent key raises KeyError and changes nothing) from the empty Tree, with non-NaN keys. -/
+theorem C10_tree_histories (addr : Nat → Bytes) (st : Store) (kt vt : Ty) (h₁ h₂ : List TreeOp)
+    (ok₁ : ∀ o ∈ h₁, o.keyOk = true) (ok₂ : ∀ o ∈ h₂, o.keyOk = true) :
+    let t₁ := runTreeOps addr [] h₁
+    let t₂ := runTreeOps addr [] h₂
+    TreeSeq addr t₁ ∧
+    (∃ v, copyVal addr st (.tree kt vt t₁) = .ok v ∧ valCmp addr st v (.tree kt vt t₁) = some 0 ∧
+        valHash addr st v = valHash addr st (.tree kt vt t₁)) ∧
+    ((∀ e, e ∈ t₁ ↔ e ∈ t₂) →
+        valCmp addr st (.tree kt vt t₁) (.tree kt vt t₂) = some 0 ∧
+        valHash addr st (.tree kt vt t₁) = valHash addr st (.tree kt vt t₂)) := by
+  have w₁ := runTreeOps_treeSeq addr h₁ [] (by simp [TreeSeq]) ok₁
+  have w₂ := runTreeOps_treeSeq addr h₂ [] (by simp [TreeSeq]) ok₂
+  exact ⟨w₁, C10_copy_eq addr st (.tree kt vt _) (by simp [CopyCovered]) w₁,
+    fun h => C10_tree_history_independent addr st kt vt kt vt _ _ w₁ w₂ h⟩
+
+/-- non-vacuity: inserting 0 then 55, or 55, 7, 0 and removing 7, ends in the same Tree sequence -/
+example : runTreeOps (fun _ => []) [] [.set (.int 0) (.int 1), .set (.int 55) (.int 2)] =
+    runTreeOps (fun _ => []) [] [.set (.int 55) (.int 2), .set (.int 7) (.int 9), .set (.int 0) (.int 1), .rem (.int 7)] := by
+  decide
+
 /-! ### Table: copy/assign under `Table_Cmp`, which iterates in slot order (known finding F06) -/
 
 /-- the statement one would want: the copy of a Table (here: of any Table built by the constructor) is eq to it. FALSE. -/
@@ -428,12 +452,29 @@ theorem C10_swap_exchanges (st : Store) (a b : Nat) (oa ob : Obj) (ha : st.get a
   · intro c hca hcb
     rw [Store.get_set_other _ _ _ _ hcb, Store.get_set_other _ _ _ _ hca]
 
-/-- hence the hashes are exchanged too, and a second swap restores the store contents -/
+/-- hence the hashes are exchanged too (for a Tuple the hash is taken through the item pointers, which `swap` of two other
+    objects does not touch; stated here for values that hold their elements themselves) -/
 theorem C10_swap_hashes (addr : Nat → Bytes) (st : Store) (a b : Nat) (oa ob : Obj)
-    (ha : st.get a = some oa) (hb : st.get b = some ob) :
-    ((swapObjs st a b).get a).map (·.val) = some ob.val ∧ ((swapObjs st a b).get b).map (·.val) = some oa.val := by
+    (ha : st.get a = some oa) (hb : st.get b = some ob)
+    (hta : ∀ ids, oa.val ≠ .tuple ids) (htb : ∀ ids, ob.val ≠ .tuple ids) :
+    ∃ na nb, (swapObjs st a b).get a = some na ∧ (swapObjs st a b).get b = some nb ∧
+      na.cls = oa.cls ∧ nb.cls = ob.cls ∧
+      valHash addr (swapObjs st a b) na.val = valHash addr st ob.val ∧
+      valHash addr (swapObjs st a b) nb.val = valHash addr st oa.val := by
   obtain ⟨h1, h2, _⟩ := C10_swap_exchanges st a b oa ob ha hb
-  simp [h1, h2]
+  refine ⟨_, _, h1, h2, rfl, rfl, ?_, ?_⟩
+  · cases hv : ob.val with
+    | tuple ids => exact absurd hv (htb ids)
+    | sc _ => simp [valHash]
+    | seq k _ _ => cases k <;> simp [valHash]
+    | table _ _ _ => simp [valHash]
+    | tree _ _ _ => simp [valHash]
+  · cases hv : oa.val with
+    | tuple ids => exact absurd hv (hta ids)
+    | sc _ => simp [valHash]
+    | seq k _ _ => cases k <;> simp [valHash]
+    | table _ _ _ => simp [valHash]
+    | tree _ _ _ => simp [valHash]
 
 example : (swapObjs #[some ⟨.stack, .sc (.int 1)⟩, some ⟨.heap, .sc (.int 2)⟩] 0 1).get 0 = some ⟨.stack, .sc (.int 2)⟩ :=
   (C10_swap_exchanges _ 0 1 ⟨.stack, .sc (.int 1)⟩ ⟨.heap, .sc (.int 2)⟩ rfl rfl).1
